@@ -551,12 +551,40 @@ theorem rrtstar_clean_of_delayCC (o : Obj σ α) (sp : Space σ δ) (ops : List 
     Clean o sp (St.init o sp) ops :=
   clean_of_delayCC o sp _ ops h
 
+/-- with the code as it is now (fix e1b5ec649: the classic loop caches `nmotion`'s own edge) EVERY history of EITHER
+choose-parent loop is clean. -/
+theorem rrtstar_clean_of_current (o : Obj σ α) (sp : Space σ δ) (ops : List (Op σ δ)) (h : sp.classicOld = false) :
+    Clean o sp (St.init o sp) ops :=
+  clean_of_current o sp _ ops h
+
+/-- THE POINT OF THE FIX: with the current code the cost invariant holds in EVERY reachable state of EITHER loop
+(`delayCC_` true or false) — no cleanliness hypothesis. -/
+theorem rrtstar_cost_inv_current {o : Obj σ α} (L : Laws o) (sp : Space σ δ) (ops : List (Op σ δ)) (hcur : sp.classicOld = false) :
+    (∀ j : Nat, CostOK o (run o sp (St.init o sp) ops).motions j) ∧ (run o sp (St.init o sp) ops).fuelOut = false :=
+  rrtstar_cost_inv L sp ops (rrtstar_clean_of_current o sp ops hcur)
+
+/-- … and so the stored cost of whatever `solve()` registers IS the cost of the reported path, for every history of either
+loop. -/
+theorem rrtstar_stored_cost_truthful_current {o : Obj σ α} (L : Laws o) (sp : Space σ δ) (ops : List (Op σ δ)) (r : Report σ α δ)
+    (hcur : sp.classicOld = false) (h : report o (run o sp (St.init o sp) ops) = some r) :
+    r.storedCost = pathCost (algOf o) o.motionCost (fun _ => o.identity) (fun _ => o.identity)
+      (statesOf (run o sp (St.init o sp) ops).motions r.pathIdx) :=
+  rrtstar_stored_cost_truthful L sp ops r (rrtstar_clean_of_current o sp ops hcur) h
+
+/-- … and the tree invariant, the incumbent synchronisation and the exact optimized flag likewise. -/
+theorem rrtstar_flag_exact_current {o : Obj σ α} (L : Laws2 o) (sp : Space σ δ) (ops : List (Op σ δ)) (r : Report σ α δ)
+    (hcur : sp.classicOld = false) (h : report o (run o sp (St.init o sp) ops) = some r) :
+    (r.approximate = false → r.optimized = o.isSatisfied r.storedCost) ∧
+    (r.approximate = true → r.optimized = o.isSatisfied o.infinite) :=
+  rrtstar_optimized_flag_exact L sp ops r (rrtstar_clean_of_current o sp ops hcur) h
+
+
 /-- a 1-D world for the classic loop (`delayCC = false`): states are naturals, distance `|a − b|`, range 10, the goal is
 the point 10, no goal sampling; `steer` is a parameter. -/
-def classicSp (steer : Nat → Nat → Nat → Nat) : Space Nat Nat :=
+def classicSp (steer : Nat → Nat → Nat → Nat) (old : Bool := true) : Space Nat Nat :=
   { dist := fun a b => (a - b) + (b - a), dlt := fun a b => decide (a < b), steer := steer, maxDistance := 10,
     goalDist := fun s => (s - 10) + (10 - s), goalThr := 0, goalState := 10, maxGoalSamples := 0, goalBias := 0,
-    kNearest := fun _ => 5, dinf := 1000000, delayCC := false }
+    kNearest := fun _ => 5, dinf := 1000000, delayCC := false, classicOld := old }
 
 /-- start at 0; samples 10 (becomes the goal motion 1 under the start) and 100 (steered from motion 1). -/
 def classicOps : List (Op Nat Nat) :=
@@ -568,7 +596,7 @@ example : Clean natObj (classicSp (fun a _ _ => a + 10)) (St.init natObj (classi
     (run natObj (classicSp (fun a _ _ => a + 10)) (St.init natObj (classicSp (fun a _ _ => a + 10))) classicOps).motions.size = 3 ∧
     (report natObj (run natObj (classicSp (fun a _ _ => a + 10)) (St.init natObj (classicSp (fun a _ _ => a + 10))) classicOps)).map
       (·.storedCost) = some 10 := by
-  refine ⟨fun _ k => ?_, by decide, by decide⟩
+  refine ⟨fun _ _ k => ?_, by decide, by decide⟩
   rcases k with _ | _ | _ | _ | _ | k
   · decide
   · decide
@@ -578,8 +606,8 @@ example : Clean natObj (classicSp (fun a _ _ => a + 10)) (St.init natObj (classi
   · rw [List.take_of_length_le (by simp [classicOps])]
     decide
 
-/-- THE CLASSIC LOOP AS CODED IS NOT TRUTHFUL WITHOUT CLEANLINESS (negation of `rrtstar_cost_inv` /
-`rrtstar_stored_cost_truthful` for `delayCC_ = false`, concrete witness).  The `else` branch of the loop
+/-- THE CLASSIC LOOP AS CODED BEFORE FIX e1b5ec649 (`classicOld`, finding F340) IS NOT TRUTHFUL WITHOUT CLEANLINESS
+(negation of `rrtstar_cost_inv` / `rrtstar_stored_cost_truthful` for that loop, concrete witness).  The `else` branch of the loop
 (`nbh[i] == nmotion`) caches `incCosts[i] = motion->incCost`, the new motion's CURRENT edge cost; when an earlier
 neighbour has already replaced `nmotion` as the parent, that is the cost of the edge from the NEW parent.  Here the new
 state 4 (steered from motion 1 = state 10 towards the sample, landing nearer to the start 0 — an `interpolate` that does
@@ -589,7 +617,7 @@ not stay on the geodesic, or in C++ an exact distance tie that `nearestK` orders
 the new motion with `incCost 4`, `cost 8`.  `solve()` then stores cost 8 for the path `0 → 4 → 10` whose cost is 10:
 the stored cost is BETTER than the true cost.  All other clauses of the invariant still hold. -/
 theorem rrtstar_classic_stale_inc_fails :
-    (classicSp (fun _ _ _ => 4)).delayCC = false ∧
+    (classicSp (fun _ _ _ => 4)).delayCC = false ∧ (classicSp (fun _ _ _ => 4)).classicOld = true ∧
     (run natObj (classicSp (fun _ _ _ => 4)) (St.init natObj (classicSp (fun _ _ _ => 4))) classicOps).staleInc = true ∧
     ((run natObj (classicSp (fun _ _ _ => 4)) (St.init natObj (classicSp (fun _ _ _ => 4))) classicOps).motions[1]?.map
       (fun m => (m.state, m.parent, m.incCost, m.cost))) = some (10, some 2, 4, 8) ∧
@@ -599,10 +627,24 @@ theorem rrtstar_classic_stale_inc_fails :
       pathCost (algOf natObj) natObj.motionCost (fun _ => natObj.identity) (fun _ => natObj.identity) r.path = 10 ∧
       natObj.better r.storedCost
         (pathCost (algOf natObj) natObj.motionCost (fun _ => natObj.identity) (fun _ => natObj.identity) r.path) = true := by
-  refine ⟨rfl, by decide, by decide, by decide, ?_⟩
+  refine ⟨rfl, rfl, by decide, by decide, by decide, ?_⟩
   refine ⟨_, rfl, ?_⟩
   decide
 
+
+/-- the same history on the CURRENT code (same world, same off-geodesic steering, `classicOld = false`): the goal motion
+is re-parented with `incCost 6 = motionCost(4, 10)`, cost 10; the stored cost 10 is the cost of the path `0 → 4 → 10`. -/
+example :
+    ((run natObj (classicSp (fun _ _ _ => 4) false) (St.init natObj (classicSp (fun _ _ _ => 4) false)) classicOps).motions[1]?.map
+      (fun m => (m.parent, m.incCost, m.cost))) = some (some 0, 10, 10) ∨
+    ((run natObj (classicSp (fun _ _ _ => 4) false) (St.init natObj (classicSp (fun _ _ _ => 4) false)) classicOps).motions[1]?.map
+      (fun m => (m.parent, m.incCost, m.cost))) = some (some 2, 6, 10) := by
+  decide
+
+example : (report natObj (run natObj (classicSp (fun _ _ _ => 4) false) (St.init natObj (classicSp (fun _ _ _ => 4) false))
+    classicOps)).map (fun r => (r.storedCost, pathCost (algOf natObj) natObj.motionCost (fun _ => natObj.identity)
+      (fun _ => natObj.identity) r.path)) = some (10, 10) := by
+  decide
 
 /-- a state obeying the invariant with a zero-length chain `1 → 2 → 3` (three motions at the same place):
 motion 3 (just inserted under 2) offers its ancestor 1 exactly the cost it already has. -/
